@@ -96,6 +96,25 @@ fn transcript<C: S>(g: &str, seed: u64, m: &mut Map<String, Value>) {
             m.insert(format!("{}/multisig-verifies/{}", g, sn), json!(multi.verify(mpk, &ms[3]).is_ok()));
         }
     }
+    // larger aggregates and multi-signatures (many pairing terms): verdicts must agree across backends
+    for n in [15usize, 16, 17, 33] {
+        let sks: Vec<SecretKey<C>> = (0..n).map(|i| SecretKey::<C>::from_hash(format!("xb-agg-{}", i))).collect();
+        for (sn, s) in SCHEMES {
+            let sigs: Vec<Signature<C>> = sks.iter().enumerate().map(|(i, k)| k.sign(s, format!("m{}", i).as_bytes()).unwrap()).collect();
+            let agg = AggregateSignature::<C>::from_signatures(&sigs).unwrap();
+            let pairs: Vec<(PublicKey<C>, Vec<u8>)> = sks.iter().enumerate().map(|(i, k)| (k.public_key(), format!("m{}", i).into_bytes())).collect();
+            m.insert(format!("{}/aggregate-large/{}/{}/bytes", g, n, sn), json!(hx(Vec::from(&agg))));
+            m.insert(format!("{}/aggregate-large/{}/{}/verifies", g, n, sn), json!(agg.verify(&pairs).is_ok()));
+            let mut wrong = pairs.clone();
+            wrong[n - 1].1.push(0);
+            m.insert(format!("{}/aggregate-large/{}/{}/altered-rejected", g, n, sn), json!(agg.verify(&wrong).is_err()));
+        }
+        let sigs: Vec<Signature<C>> = sks.iter().map(|k| k.sign(SignatureSchemes::ProofOfPossession, b"same").unwrap()).collect();
+        let multi = MultiSignature::<C>::from_signatures(&sigs).unwrap();
+        let mpk = MultiPublicKey::<C>::from_public_keys(sks.iter().map(|k| k.public_key()).collect::<Vec<_>>());
+        m.insert(format!("{}/multisig-large/{}/bytes", g, n), json!(hx(Vec::from(&multi))));
+        m.insert(format!("{}/multisig-large/{}/verifies", g, n), json!(multi.verify(mpk, b"same").is_ok()));
+    }
     // combination of given shares: f(x) = sk + c x, identifiers 1..5
     let sk = &ks[3].1;
     let c = SecretKey::<C>::from_hash(b"xb coefficient");
